@@ -92,6 +92,7 @@ def families(prop: str, tier: str, seed: int) -> List[Dict[str, Any]]:
     if prop == "C01":
         s = g.gen_flow(seed, 500 * k) + g.gen_stop_sweep(seed, 200 * k) + g.gen_saturation(seed, 100 * k)
         s += list(g.gen_flow_enum(4 if q else 6, g.flow_enum_cfgs([1, 2], [0, 1], [0, 2], [-1], 3)))
+        s += g.gen_pipe(seed + 7, 200 * k)       # hooks in front of the task function (sync / async / future-returning / raising)
     elif prop == "C02":
         s = list(g.gen_pipe_enum()) + g.gen_pipe(seed, 600 * k) + g.gen_deps(seed, 100 * k)
     elif prop == "C03":
